@@ -6,30 +6,36 @@ from props.C01 import extract_store, payload, Track, SECOND, START
 PID = "C04"
 READY = True
 MANIFEST = {
-    "level_text": "Lean 4 theorems over a model of ChunkStore extended with an abstract file system (path -> bytes) and the exact "
-                  "sequence of file-system operations of persist_chunk_to_disk, secure_wipe_file, sweep_expired and the constructor: "
-                  "for every history of store / overwrite / lookup / sweep / tick / clock advance / restart on the same directory, "
-                  "with a crash after the k-th file-system operation of any operation or of a start-up, for every k and every "
-                  "initial directory content (no bounds): whenever an instance runs, the chunk files are exactly the current records "
-                  "with exactly their bytes (C04.inv), each present file belongs to a chunk that was live at the latest cleanup "
-                  "(files_allowed), right after a sweep or start-up at T no file exists for a chunk with deadline <= T nor for an id "
-                  "unknown to the instance, however the expiry was first noticed (cleanup), after any crash and any number of "
-                  "crashing start-ups the next completed start-up leaves no chunk file and every other file untouched "
-                  "(crash_recovery, others_untouched), and a wipe writes size zero bytes per pass before the remove (overwritten). "
-                  "Tied to the source by regenerated constants (4096-byte wipe buffer, .chunk suffix, expiry comparison operators, "
-                  "1 s floor) and by a differential run of the real ChunkStore/Node on a scratch directory against the compiled "
-                  "model, including crash-point enumeration: a forked child process per (history, k) runs the operation and is killed "
-                  "before its k-th mutating file-system call (fopen-truncate / write / writev / unlink interposed), the parent forgets "
-                  "its instance, a fresh instance restarts on the same directory, and the Lean specification judges every directory "
-                  "listing.",
-    "level_note": "Trusted: Lean kernel; the transcription of the C++ file-system call sequences into FsOp lists (checked by the "
-                  "differential run: directory listings with content hashes after every operation, the number of mutating calls "
-                  "per operation, bytes written and all-zero flag per wiped file); the interposer harness (harness/c04_fsfault.cpp). "
-                  "Modelled, not verified: every file-system call succeeds and is atomic (a crash falls between two calls; I/O "
-                  "errors such as ENOSPC are outside the property's quantifier), the kernel's file semantics, durability (the code "
-                  "never calls fsync; not part of the property), std::filesystem directory iteration. Partial in that sense only.",
-    "technique": "Lean 4 invariant proof over histories with crash points + model/implementation differential correspondence with "
-                 "crash-point enumeration (process kill at every mutating file-system call) and Lean monitor",
+    "level_text": "Lean 4 theorems over a model of ChunkStore extended with an abstract file system (path -> bytes), the exact "
+                  "sequence of file-system operations of persist_chunk_to_disk, secure_wipe_file, sweep_expired and the constructor, "
+                  "and their error handling (pending_wipes_ retry list): for every history of store / overwrite / lookup / sweep / "
+                  "tick / clock advance / restart on the same directory, with a crash after the k-th file-system operation of any "
+                  "operation or start-up, and with any set of file-system calls (open, write incl. short writes, unlink) failing "
+                  "with an I/O error, for every k, every fault set and every initial directory content (no bounds): whenever an "
+                  "instance runs, every persisted record has its file with exactly its bytes and every other chunk file present is "
+                  "on the retry list (C04.inv, files_allowed, failed_store); right after a sweep or start-up at T every file of a "
+                  "chunk with deadline <= T or of an unknown id is gone or on the retry list (cleanup_faulty), and gone with an "
+                  "empty retry list if that sweep/start-up ran without error, however the expiry was first noticed (cleanup); after "
+                  "any crash and any number of crashing start-ups the next completed start-up leaves no chunk file and every other "
+                  "file untouched (crash_recovery, others_untouched); a wipe writes size zero bytes per pass before the remove "
+                  "(overwritten). Tied to the source by regenerated constants (4096-byte wipe buffer, .chunk suffix, expiry "
+                  "comparison operators, 1 s floor) and by a differential run of the real ChunkStore/Node on a scratch directory "
+                  "against the compiled model, including crash-point enumeration (a forked child per (history, k) runs the "
+                  "operation and is killed before its k-th mutating call; the parent forgets its instance and a fresh instance "
+                  "restarts on the directory) and I/O-error enumeration (the k-th fopen/write/writev/unlink of the operation "
+                  "returns ENOSPC/EACCES, writes also as short writes), with the Lean specification judging every directory listing.",
+    "level_note": "Trusted: Lean kernel; the transcription of the C++ file-system call sequences and error branches into the "
+                  "FsOp-emitting routines (checked by the differential run: directory listings with content hashes after every "
+                  "operation, the number of mutating calls and of fallible calls per operation, bytes written and all-zero flag per "
+                  "wiped file, also under injected errors); the interposer harness (harness/c04_fsfault.cpp). Modelled, not "
+                  "verified: each file-system call is atomic (a crash falls between two calls); stat-like calls, mkdir and directory "
+                  "iteration never fail; the harness injects one failing call per operation (the theorems cover any set); under a "
+                  "persisting error a file necessarily stays, the guarantee is 'on the retry list until a sweep runs without error'; "
+                  "when an overwrite write fails the file is removed without complete overwrite; durability (no fsync in the code; "
+                  "not part of the property); one daemon instance per directory. Partial in that sense only.",
+    "technique": "Lean 4 invariant proof over histories with crash points and failing calls + model/implementation differential "
+                 "correspondence with crash-point and I/O-error enumeration (process kill / injected errno at every file-system call) "
+                 "and Lean monitor",
 }
 
 
@@ -243,6 +249,25 @@ def crash_enumeration(ctx: Ctx, sp: Spec, hbin: Path, drv: Path, n_hist: int) ->
             cases.append(Case(ops=ops[:idx] + [f"crashat {k} {target}"] + ops[idx + 1:], tag="crash/" + shape, cid=f"cp{len(cases)}"))
     ctx.coverage["crash_histories"] = n_hist
     ctx.coverage["crash_points_enumerated"] = len(cases)
+    # 3. one case per failing call: `failat <k> <short> <op>` (the k-th file-system call of the op returns an
+    #    I/O error; a failing write first gets <short> bytes through).  Only ops that wipe at most one file:
+    #    with several, the order (hash map / directory iteration) decides which file the k-th call belongs to.
+    fail_tail = ["ls", "sweep", "ls", f"adv {60 * SECOND}", "sweep", "ls", "restart", "ls"]
+    n_fail = 0
+    for (ops, idx, shape), r in zip(hists, res):
+        line = r.impl[idx] if idx < len(r.impl) else ""
+        m = re.search(r"calls=(\d+)", line)
+        calls = int(m.group(1)) if m else 0
+        wiped = line.split(" wiped=")[1].split(",") if " wiped=" in line else []
+        if len(wiped) > 1:
+            continue
+        target = ops[idx][len("crash "):]
+        for k in range(calls):
+            for short in {0, rng.choice([1, 100, 1000, 4095, 5000])}:
+                cases.append(Case(ops=ops[:idx] + [f"failat {k} {short} {target}"] + fail_tail, tag="fail/" + shape,
+                                  cid=f"cp{len(cases)}"))
+                n_fail += 1
+    ctx.coverage["io_error_points_enumerated"] = n_fail
     for off in range(0, len(cases), 2000):
         account(run_pair(hbin, drv, cases[off:off + 2000], ctx.work), divs)
     if divs and not ctx.violations:
@@ -281,11 +306,14 @@ def spec() -> Spec:
              "10000}, 1-3 wipe passes; non-trivial = a chunk file is listed and later gone. (b) crash enumeration: for each crash "
              "history (store / overwrite / store over an orphan / sweep / sweep after a lookup noticed the expiry / start-up purge) "
              "and each k < number of mutating file-system calls of the crash op, a forked child process runs the op and is killed before its k-th "
-             "call, the parent (which never ran the op) forgets its instance, lists the directory, restarts on it, sweeps and lists again; every crash point lies inside a store, "
+             "call, the parent (which never ran the op) forgets its instance, lists the directory, restarts on it, sweeps and lists again; "
+             "(c) I/O-error enumeration: for the same histories and each k < number of file-system calls of the op (fopen, each "
+             "write, unlink) the k-th call fails (ENOSPC/EACCES; failing writes also as short writes), then list, sweep, list, "
+             "advance, sweep, list, restart, list; every crash point lies inside a store, "
              "wipe or purge (DESIGN section 9 rule); distinct = sha256 of the op list (+ k)",
         trusted_base=["interposition of fopen64/write/writev/unlink/remove in the harness executable (harness/c04_fsfault.cpp)",
                       "atomicity of single file-system calls; std::filesystem directory iteration", "virtual clock by link-time interposition"],
-        assumptions=["every file-system call succeeds (no ENOSPC/EIO); a crash falls between two calls",
+        assumptions=["a crash falls between two file-system calls; injected I/O errors are per call (fopen / write / unlink), stat-like calls never fail",
                      "one daemon instance per storage directory at a time",
                      "persistence and wipe-on-expiry enabled (the property's premise); with wipe-on-expiry off only model/implementation agreement is checked"],
         batch=2000,
